@@ -285,4 +285,5 @@ func partio(c *hx.Ctx) {
 		}()
 	}
 	partioCopy(c)
+	partioDisk(c)
 }
